@@ -2,7 +2,9 @@ use crate::config::Config;
 use crate::diagnostic_emitter::MosResult;
 use fs_err::OpenOptions;
 use mos_core::errors::map_io_error;
-use mos_core::formatting::format;
+use codespan_reporting::diagnostic::Diagnostic;
+use mos_core::errors::Diagnostics;
+use mos_core::formatting::{format, MAX_COLUMN};
 use mos_core::parser::parse_or_err;
 use mos_core::parser::source::FileSystemParsingSource;
 use mos_core::LINE_ENDING;
@@ -14,6 +16,22 @@ use std::io::Write;
 pub struct FormatArgs {}
 
 pub fn format_command(cfg: &Config) -> MosResult<()> {
+    // The formatter cannot lay out text beyond MAX_COLUMN: refuse such a configuration instead of silently capping it
+    let ws = &cfg.formatting.whitespace;
+    for (name, value) in [
+        ("indent", ws.indent),
+        ("label-margin", ws.label_margin),
+        ("code-margin", ws.code_margin),
+    ] {
+        if value > MAX_COLUMN {
+            return Err(Diagnostics::from(Diagnostic::error().with_message(format!(
+                "formatting.whitespace.{} = {} is out of range (the maximum is {})",
+                name, value, MAX_COLUMN
+            )))
+            .into());
+        }
+    }
+
     let input_name = cfg.build.entry.clone();
     let tree = parse_or_err(input_name.as_ref(), FileSystemParsingSource::new().into())?;
 
